@@ -5,7 +5,8 @@ above), load_pubkeys / compute_pubkeys_output / HSMCertificate.from_jsonfile (AS
 from .common import *
 from .certificate_v1 import CERT, cert_wf
 from .attestation_utils import powhsm_header, HEADER_LEN, BODY_LEN, be_value
-from spec.certs import chain_valid, signed_message
+from spec.certs import chain_valid, signed_message, signed_tweak
+from .signer_auth import dec
 from spec.pubkeys_ext import PUBKEYS, keys_blob, map_of, n_keys, compressed_key_hex, has_path
 from spec.hash_ext import sha256
 import spec.cli_ext     # noqa  (console log)
@@ -89,6 +90,24 @@ class VerifyLedgerAttestation(Contract):
         return ud_value == hexs(m[10:42]) and ui_public_key == hexs(m[42:75]) and signer_iteration == be_value(m[107:109])
     at_exit = [chain_is_valid_for_the_chosen_root, ui_message_has_the_expected_header, ui_attested_key_is_the_operators,
                signer_message_is_well_formed_and_vouches_for_the_operators_keys, printed_values_are_the_signed_ones]
+
+    # "The values they print ... are those found at the documented offsets of the signed messages": the lines handed to
+    # head() - the UI block and the signer block - are checked at the two call sites
+    def printed_lines(arg_ss, att_cert=None, pubkeys_map=None, pubkeys_output=None):
+        if is_str(arg_ss):
+            return True                 # the title line
+        if arg_ss[0] == "UI verified with:":
+            m = signed_message(att_cert._elements, "ui")
+            return (arg_ss[1] == "UD value: " + hexs(m[10:42])
+                    and arg_ss[2] == "Derived public key (m/44'/0'/0'/0/0): " + hexs(m[42:75])
+                    and arg_ss[3] == "Authorized signer hash: " + hexs(m[75:107])
+                    and arg_ss[4] == "Authorized signer iteration: " + dec(be_value(m[107:109]))
+                    and arg_ss[5] == "Installed UI hash: " + hexs(signed_tweak(att_cert._elements, "ui")))
+        n = len(pubkeys_output)
+        keys_hash = sha256(keys_blob(map_of(pubkeys_map), n_keys(pubkeys_map)))
+        return (arg_ss[0] == "Signer verified with public keys:" and arg_ss[1 + n] == "Hash: " + hexs(keys_hash)
+                and arg_ss[1 + n + 2] == "Installed Signer hash: " + hexs(signed_tweak(att_cert._elements, "signer")))
+    at_calls = {"head": [printed_lines]}
     raises = {"Exception": Exc()}
 
 
@@ -100,3 +119,137 @@ class Head(Contract):
     params = dict(fill=STR_, nl=BOOL_)        # `ss` (a str or a list of str) is only printed
     pure = True
     ghost_frame = ["stdout_log"]
+
+
+# ================================================================================================ SGX half of C08
+from .certificate_v2 import X509, QUOTE_SIZE                                  # noqa: E402
+from spec.x509_ext import pem_of, cert_loads, within_validity, issued_by     # noqa: E402
+from pyvc import terms as _tm                                                 # noqa: E402
+from pyvc.values import to_term as _tt, as_value as _av, Opaque as _Opaque, Obj as _Obj   # noqa: E402
+
+CERTV2 = OBJ("admin.certificate_v2:HSMCertificateV2", _targets=JSON_, _elements=OPAQUE("v2elements", id=INT_))
+_v2_chain_valid = _tm.FunDecl("certv2.quote_chain_valid", [_tm.INT, _tm.BYTES, _tm.BYTES, _tm.BYTES], _tm.BOOL)
+
+
+@native
+def v2_chain_valid(ip, st, cert, root, quote_message, custom_data):
+    """ASSUMED (uninterpreted): validate_and_get_values of the version-2 certificate `cert` reports the target "quote"
+    valid for the root of trust `root`, the quote element carrying `quote_message` and `custom_data`"""
+    cid = st.fields(cert)["_elements"].attrs["id"]
+    return _av("bool", _v2_chain_valid(_tt(cid), _tt(st.fields(root)["_message"]), _tt(quote_message), _tt(custom_data)))
+
+
+class FromJsonFileV2(Contract):
+    """assumed, for the SGX command only: the file holds a version-2 certificate (or loading raises)"""
+    file, qualname = "admin/certificate_v1.py", "HSMCertificate.from_jsonfile"
+    assume_only = True
+    params = dict(path=STR_)
+    result = CERTV2
+    pure = True
+    serves = ["C08"]
+    raises = {"ValueError": Exc(args=[STR_])}
+
+
+def _native_sgx_quote():
+    import importlib, os, sys
+    import spec.cstruct as CS
+    mw = os.path.join(CS.REPO, "middleware")
+    if mw not in sys.path:
+        sys.path.insert(0, mw)
+    return importlib.import_module("sgx.envelope").SgxQuote
+
+
+QUOTE_VIEW = OPAQUE("cstruct", cls=CONST(None), native=CONST(_native_sgx_quote()), value=BYTES_, offset=CONST(0), little=CONST(True),
+                    size=CONST(QUOTE_SIZE))
+
+
+def _v2_result(bound):
+    return ONEOF(PYDICT(), PYDICT(quote=TUPLE(CONST(False), STR_)),
+                 PYDICT(quote=TUPLE(CONST(True), PYDICT(sgx_quote=QUOTE_VIEW, message=STR_), NONE_)))
+
+
+class ValidateV2(Contract):
+    """assumed, for the SGX command only: the version-2 walk (NOT verified, see C07) yields no verdict for "quote", an
+    invalid one naming an element, or a valid one whose value is the quote element's get_value()"""
+    file, qualname = "admin/certificate_v1.py", "HSMCertificate.validate_and_get_values"
+    assume_only = True
+    self_spec = CERTV2
+    params = dict(root_of_trust=X509)
+    result = _v2_result
+    pure = True
+    serves = ["C08"]
+
+    def valid_verdict_is_the_quote_elements(self, root_of_trust, result):
+        if "quote" in result and result["quote"][0]:
+            v = result["quote"][1]
+            return (len(v["sgx_quote"].value) >= QUOTE_SIZE and is_hex(v["message"])
+                    and v2_chain_valid(self, root_of_trust, v["sgx_quote"].value, unhex(v["message"])))
+        return True
+    ensures = [valid_verdict_is_the_quote_elements]
+
+
+@contract("admin/attestation_utils.py", "get_root_of_trust", serves=["C08"])
+class GetRootOfTrust(Contract):
+    assume_only = True
+    assumptions = ["get_root_of_trust(path) returns an x509 element built from the PEM found at the path / URL, or raises (file and "
+                   "network access not verified)"]
+    params = dict(path=STR_)
+    result = X509
+    pure = True
+    raises = {"Exception": Exc()}
+
+
+@contract("admin/verify_sgx_attestation.py", "do_verify_attestation", serves=["C08"])
+class VerifySgxAttestation(Contract):
+    params = dict(options=OPTIONS)
+    max_paths = 20000
+    exception_serves = ()
+    ghost_frame = ["stdout_log"]
+    callee_contracts = {("admin/certificate_v1.py", "HSMCertificate.from_jsonfile"): FromJsonFileV2,
+                        ("admin/certificate_v1.py", "HSMCertificate.validate_and_get_values"): ValidateV2}
+    assumptions = ["ASSUMED for this command: HSMCertificate.from_jsonfile returns a version-2 certificate or raises; the version-2 "
+                   "validate_and_get_values (NOT verified: unbounded element names) yields no / an invalid / a valid verdict for the target quote whose "
+                   "value is the quote element's get_value(); 'the chain is valid' appears below only as that assumed verdict "
+                   "(certv2.quote_chain_valid, uninterpreted)"]
+
+    def root_of_trust_validates_itself(root_of_trust, g):
+        return (cert_loads(pem_of(root_of_trust._message)) and within_validity(pem_of(root_of_trust._message), g.clock_now)
+                and issued_by(pem_of(root_of_trust._message), pem_of(root_of_trust._message)))
+    def quote_verdict_was_valid(att_cert, root_of_trust, sgx_quote, powhsm_message):
+        return v2_chain_valid(att_cert, root_of_trust, sgx_quote.value, powhsm_message._raw_value)
+    def message_is_well_formed_and_vouches_for_the_operators_keys(powhsm_message, pubkeys_map):
+        m = powhsm_message._raw_value
+        return (powhsm_header(m) and len(m) == HEADER_LEN + BODY_LEN and n_keys(pubkeys_map) > 0
+                and m[47:79] == sha256(keys_blob(map_of(pubkeys_map), n_keys(pubkeys_map))))
+    at_exit = [root_of_trust_validates_itself, quote_verdict_was_valid, message_is_well_formed_and_vouches_for_the_operators_keys]
+
+    # printed values: MRENCLAVE / MRSIGNER at the Intel offsets of the signed quote (48 + 64, 48 + 128), the message
+    # fields at the documented offsets of the signed custom message
+    def printed_hash(arg_ss, pubkeys_map=None, pubkeys_output=None):
+        if is_str(arg_ss):
+            return True
+        n = len(pubkeys_output)
+        keys_hash = sha256(keys_blob(map_of(pubkeys_map), n_keys(pubkeys_map)))
+        return arg_ss[0] == "powHSM verified with public keys:" and arg_ss[1 + n] == "Hash: " + hexs(keys_hash)
+    def printed_enclave_identity(arg_ss, sgx_quote=None, pubkeys_output=None):
+        if is_str(arg_ss):
+            return True
+        n = len(pubkeys_output)
+        q = sgx_quote.value
+        return (arg_ss[1 + n + 2] == "Installed powHSM MRENCLAVE: " + hexs(q[112:144])
+                and arg_ss[1 + n + 3] == "Installed powHSM MRSIGNER: " + hexs(q[176:208]))
+    def printed_message_fields(arg_ss, powhsm_message=None, pubkeys_output=None):
+        if is_str(arg_ss):
+            return True
+        n = len(pubkeys_output)
+        m = powhsm_message._raw_value
+        return (arg_ss[1 + n + 6] == "UD value: " + hexs(m[15:47])
+                and arg_ss[1 + n + 7] == "Best block: " + hexs(m[79:111])
+                and arg_ss[1 + n + 8] == "Last transaction signed: " + hexs(m[111:119]))
+    def printed_timestamp(arg_ss, powhsm_message=None, pubkeys_output=None):
+        if is_str(arg_ss):
+            return True
+        m = powhsm_message._raw_value
+        return arg_ss[1 + len(pubkeys_output) + 9] == "Timestamp: " + dec(be_value(m[119:127]))
+    at_calls = {"head": [printed_hash, printed_enclave_identity, printed_message_fields, printed_timestamp]}
+    raises = {"Exception": Exc()}
